@@ -89,7 +89,10 @@ CLAIMS = {
                 "holes keep only their last value, assignments inside holes are visible afterwards, nesting 1..20.",
         "note": TB + "template_join / template_cap (VM model): ld.fs n yields exactly the concatenation, bottom to top, of the string forms of "
                      "its n operands, or an error beyond the cap; that a hole leaves exactly one operand (its value, or '' when its code "
-                     "leaves none) is the skeleton theorem of C08 (fstr.block.pop) plus the template oracle on the implementation.",
+                     "leaves none) is the skeleton theorem of C08 (fstr.block.pop) plus the template oracle on the implementation; "
+                     "hole_becomes_text / text_is_heap_independent: the operand a hole leaves is the STRING FORM its value has when the "
+                     "hole ends, and a string's form does not depend on the heap — what later holes do to a container cannot reach the "
+                     "text already assembled.",
         "technique": "Lean 4 induction over texts (escape/scan round trip) + differential stream + template oracle",
     },
     "C09": {
